@@ -4,7 +4,12 @@
                the listing node as parent; the reachable part is a well-founded tree; the root has no parent. *)
 From Coq Require Import List ZArith QArith Bool.
 Import ListNotations.
-Require Import QV.C09.Model QV.C09.Corr QV.C09.Proofs.
+Require Import QV.C09.Model QV.C09.Corr QV.C09.Proofs QV.C09.Proofs2.
+
+(* every freshly constructed tree (Loop(...) with nested children, any counts / waveforms / measurements) satisfies Inv *)
+Theorem C09_init : forall t, sInv (init_state t).
+Proof. exact init_inv. Qed.
+Print Assumptions C09_init.
 
 (* Loop.waveform setter, any node of the tree, any waveform / None *)
 Theorem C09_set_waveform_preserves : forall h r x w h' res,
